@@ -58,6 +58,7 @@ uint32_t vra_thread(void){ return 0; }
 void vra_na_read(uint32_t o){}
 void vra_na_write(uint32_t o){}
 void vra_forget(void* p, uint64_t len){}
+void vra_register(void* p, uint32_t bits){}
 uint32_t vra_stale_reads(void){ return 0; }
 #else
 /* ------------------------------------------------------------------ release/acquire mode */
@@ -97,84 +98,117 @@ static uint32_t vra_loc(void* p, uint32_t bits){
     if (i < l_cnt && l_addr[i] == p) { if (l_dead[i]) vra_fail(VRA_ERR_DEAD); return i; }
   if (l_cnt >= VRA_MAXLOC) vra_fail(VRA_ERR_CAP);
   uint32_t L = l_cnt++;
-  l_addr[L] = p; m_cnt[L] = 1; m_val[L][0] = vmem_read(p, bits);   /* initial message: non-atomic initialisation, visible to all */
+  for (uint32_t i = 0; i < VRA_MAXLOC; i++) if (i == L) { l_addr[i] = p; m_cnt[i] = 1; m_val[i][0] = vmem_read(p, bits); }   /* initial message: non-atomic initialisation, visible to all */
   return L;
 }
+void vra_register(void* p, uint32_t bits){ (void)vra_loc(p, bits); }
 static int acq(uint32_t o){ return o == 1 || o == 3 || o == 4; }
 static int rel(uint32_t o){ return o == 2 || o == 3 || o == 4; }
-static void join_msg(uint32_t L, uint32_t k){
-  for (uint32_t i = 0; i < VRA_MAXLOC; i++) if (m_view[L][k][i] > t_view[cur][i]) t_view[cur][i] = m_view[L][k][i];
-  for (uint32_t t = 0; t < VRA_MAXTHR; t++) if (m_vc[L][k][t] > t_vc[cur][t]) t_vc[cur][t] = m_vc[L][k][t];
+/* All table accesses below use CONSTANT indices inside fully unrolled loops guarded by (index == symbolic):
+ * this gives the SAT back end plain multiplexers instead of array-theory constraints (4x fewer variables). */
+struct vmsg { uint64_t val; ts_t view[VRA_MAXLOC]; ts_t vc[VRA_MAXTHR]; };
+static struct vmsg get_msg(uint32_t L, uint32_t k){
+  struct vmsg r; memset(&r, 0, sizeof r);
+  for (uint32_t l = 0; l < VRA_MAXLOC; l++) if (l == L)
+    for (uint32_t j = 0; j < VRA_MAXMSG; j++) if (j == k) {
+      r.val = m_val[l][j];
+      for (uint32_t i = 0; i < VRA_MAXLOC; i++) r.view[i] = m_view[l][j][i];
+      for (uint32_t t = 0; t < VRA_MAXTHR; t++) r.vc[t] = m_vc[l][j][t];
+    }
+  return r;
 }
-/* append a message written by the current thread; `from` = message read by an RMW (release sequence) or -1 */
-static void push_msg(uint32_t L, uint64_t v, uint32_t ord, int from){
-  uint32_t k = m_cnt[L];
+static ts_t get_cnt(uint32_t L){ ts_t r = 0; for (uint32_t l = 0; l < VRA_MAXLOC; l++) if (l == L) r = m_cnt[l]; return r; }
+static ts_t get_tview(uint32_t L){ ts_t r = 0; for (uint32_t t = 0; t < VRA_MAXTHR; t++) if (t == cur) for (uint32_t l = 0; l < VRA_MAXLOC; l++) if (l == L) r = t_view[t][l]; return r; }
+static void set_tview(uint32_t L, ts_t v){ for (uint32_t t = 0; t < VRA_MAXTHR; t++) if (t == cur) for (uint32_t l = 0; l < VRA_MAXLOC; l++) if (l == L) t_view[t][l] = v; }
+static void join_msg(struct vmsg* m){
+  for (uint32_t t = 0; t < VRA_MAXTHR; t++) if (t == cur) {
+    for (uint32_t i = 0; i < VRA_MAXLOC; i++) if (m->view[i] > t_view[t][i]) t_view[t][i] = m->view[i];
+    for (uint32_t u = 0; u < VRA_MAXTHR; u++) if (m->vc[u] > t_vc[t][u]) t_vc[t][u] = m->vc[u];
+  }
+}
+/* append a message written by the current thread; `from` = message read by an RMW (release sequence) or 0 */
+static void push_msg(uint32_t L, uint64_t v, uint32_t ord, struct vmsg* from){
+  uint32_t k = get_cnt(L);
   if (k >= VRA_MAXMSG) vra_fail(VRA_ERR_CAP);
-  m_cnt[L] = (ts_t)(k + 1); m_val[L][k] = v; t_view[cur][L] = (ts_t)k;
-  for (uint32_t i = 0; i < VRA_MAXLOC; i++) {
-    ts_t a = rel(ord) ? t_view[cur][i] : 0, b = from >= 0 ? m_view[L][from][i] : 0;
-    m_view[L][k][i] = a > b ? a : b;
+  set_tview(L, (ts_t)k);
+  struct vmsg n; memset(&n, 0, sizeof n); n.val = v;
+  for (uint32_t t = 0; t < VRA_MAXTHR; t++) if (t == cur) {
+    for (uint32_t i = 0; i < VRA_MAXLOC; i++) { ts_t a = rel(ord) ? t_view[t][i] : 0, b = from ? from->view[i] : 0; n.view[i] = a > b ? a : b; }
+    for (uint32_t u = 0; u < VRA_MAXTHR; u++) { ts_t a = rel(ord) ? t_vc[t][u] : 0, b = from ? from->vc[u] : 0; n.vc[u] = a > b ? a : b; }
+    if (rel(ord)) t_vc[t][t]++;
   }
-  m_view[L][k][L] = (ts_t)k;
-  for (uint32_t t = 0; t < VRA_MAXTHR; t++) {
-    ts_t a = rel(ord) ? t_vc[cur][t] : 0, b = from >= 0 ? m_vc[L][from][t] : 0;
-    m_vc[L][k][t] = a > b ? a : b;
+  for (uint32_t l = 0; l < VRA_MAXLOC; l++) if (l == L) {
+    m_cnt[l] = (ts_t)(k + 1);
+    for (uint32_t j = 0; j < VRA_MAXMSG; j++) if (j == k) {
+      m_val[l][j] = n.val;
+      for (uint32_t i = 0; i < VRA_MAXLOC; i++) m_view[l][j][i] = (i == l) ? (ts_t)k : n.view[i];
+      for (uint32_t u = 0; u < VRA_MAXTHR; u++) m_vc[l][j][u] = n.vc[u];
+    }
   }
-  if (rel(ord)) t_vc[cur][cur]++;
 }
 uint64_t vra_load(void* p, uint32_t bits, uint32_t ord){
   uint32_t L = vra_loc(p, bits);
-  uint32_t last = (uint32_t)m_cnt[L] - 1;
-  uint32_t k = (ord == 4) ? last : (uint32_t)vnd_range(t_view[cur][L], last);
+  uint32_t last = (uint32_t)get_cnt(L) - 1;
+  uint32_t k = (ord == 4) ? last : (uint32_t)vnd_range(get_tview(L), last);
   if (k != last) stale++;
-  t_view[cur][L] = (ts_t)k;
-  if (acq(ord)) join_msg(L, k);
-  return m_val[L][k] & vmask(bits);
+  set_tview(L, (ts_t)k);
+  struct vmsg m = get_msg(L, k);
+  if (acq(ord)) join_msg(&m);
+  return m.val & vmask(bits);
 }
 void vra_store(void* p, uint64_t v, uint32_t bits, uint32_t ord){
   uint32_t L = vra_loc(p, bits);
-  push_msg(L, v & vmask(bits), ord, -1);
+  push_msg(L, v & vmask(bits), ord, 0);
   vmem_write(p, v, bits);
 }
 uint64_t vra_rmw(void* p, uint32_t op, uint64_t v, uint32_t bits, uint32_t ord){
-  uint32_t L = vra_loc(p, bits); uint32_t k = (uint32_t)m_cnt[L] - 1;
-  uint64_t old = m_val[L][k];
-  t_view[cur][L] = (ts_t)k;
-  if (acq(ord)) join_msg(L, k);
-  uint64_t nv = vrmw_apply(op, old, v) & vmask(bits);
-  push_msg(L, nv, ord, (int)k);
+  uint32_t L = vra_loc(p, bits); uint32_t k = (uint32_t)get_cnt(L) - 1;
+  struct vmsg m = get_msg(L, k);
+  set_tview(L, (ts_t)k);
+  if (acq(ord)) join_msg(&m);
+  uint64_t nv = vrmw_apply(op, m.val, v) & vmask(bits);
+  push_msg(L, nv, ord, &m);
   vmem_write(p, nv, bits);
-  return old;
+  return m.val;
 }
 uint64_t vra_cas(void* p, uint64_t e, uint64_t n, uint32_t bits, uint32_t os, uint32_t of){
-  uint32_t L = vra_loc(p, bits); uint32_t last = (uint32_t)m_cnt[L] - 1;
+  uint32_t L = vra_loc(p, bits); uint32_t last = (uint32_t)get_cnt(L) - 1;
   e &= vmask(bits);
-  uint32_t k = (uint32_t)vnd_range(t_view[cur][L], last);
-  uint64_t old = m_val[L][k];
-  if (k == last && old == e) {
-    t_view[cur][L] = (ts_t)k; if (acq(os)) join_msg(L, k);
-    push_msg(L, n & vmask(bits), os, (int)k); vmem_write(p, n, bits);
-    return old;
+  uint32_t k = (uint32_t)vnd_range(get_tview(L), last);
+  struct vmsg m = get_msg(L, k);
+  if (k == last && m.val == e) {
+    set_tview(L, (ts_t)k); if (acq(os)) join_msg(&m);
+    push_msg(L, n & vmask(bits), os, &m); vmem_write(p, n, bits);
+    return m.val;
   }
-  vassume(old != e);              /* a strong CAS does not fail on the expected value */
+  vassume(m.val != e);              /* a strong CAS does not fail on the expected value */
   if (k != last) stale++;
-  t_view[cur][L] = (ts_t)k; if (acq(of)) join_msg(L, k);
-  return old;
+  set_tview(L, (ts_t)k); if (acq(of)) join_msg(&m);
+  return m.val;
 }
 void vra_fence(uint32_t ord){ vra_fail(VRA_ERR_CAP); /* no fences in quill; reaching one is a check error */ }
 
+static int na_check(uint32_t o, int is_write){
+  int race = 0;
+  for (uint32_t t = 0; t < VRA_MAXTHR; t++) if (t == cur)
+    for (uint32_t j = 0; j < VRA_MAXOBJ; j++) if (j == o) {
+      for (uint32_t u = 0; u < VRA_MAXTHR; u++) {
+        if (u != t && o_wc[j] != 0 && o_wt[j] == u && o_wc[j] > t_vc[t][u]) race = 1;
+        if (is_write && u != t && o_rc[j][u] > t_vc[t][u]) race = 1;
+      }
+      if (is_write) { o_wt[j] = (ts_t)t; o_wc[j] = t_vc[t][t]; } else o_rc[j][t] = t_vc[t][t];
+    }
+  return race;
+}
 void vra_na_write(uint32_t o){
   vra_init();
   if (o >= VRA_MAXOBJ) vra_fail(VRA_ERR_CAP);
-  if (o_wc[o] != 0 && o_wt[o] != cur && o_wc[o] > t_vc[cur][o_wt[o]]) vra_fail(VRA_ERR_RACE);
-  for (uint32_t t = 0; t < VRA_MAXTHR; t++) if (t != cur && o_rc[o][t] > t_vc[cur][t]) vra_fail(VRA_ERR_RACE);
-  o_wt[o] = (ts_t)cur; o_wc[o] = t_vc[cur][cur];
+  if (na_check(o, 1)) vra_fail(VRA_ERR_RACE);
 }
 void vra_na_read(uint32_t o){
   vra_init();
   if (o >= VRA_MAXOBJ) vra_fail(VRA_ERR_CAP);
-  if (o_wc[o] != 0 && o_wt[o] != cur && o_wc[o] > t_vc[cur][o_wt[o]]) vra_fail(VRA_ERR_RACE);
-  o_rc[o][cur] = t_vc[cur][cur];
+  if (na_check(o, 0)) vra_fail(VRA_ERR_RACE);
 }
 void vra_forget(void* p, uint64_t len){
   for (uint32_t i = 0; i < VRA_MAXLOC; i++)
